@@ -196,6 +196,121 @@ def specRun (e : Elem) : Nat → List Op → List Resp
   | ver, .clear :: ops => .done :: specRun e ver ops
   | ver, .set :: ops => .done :: specRun e (ver + 1) ops
 
+/-! ### Grids: coordinates *and* weights
+
+`Grid.__eq__` / `Grid.__hash__` look at the coordinates only (C10), but what `make_instance` builds
+generally depends on the weights too (every Fourier transform does).  A grid is therefore a pair of ids
+(coordinates, weights) and the `GridId` under which the cache sees it is `_get_grid_key(grid)`, a digest of
+`hash(grid)` *and* the weights (repair `pending_fixes/D505-agnostic-cache-key-weights.diff`).  The driver
+ops `req`/`reqc` receive grids as `<coord>.<weights>` and run `gridKey` on them. -/
+
+structure Grid where
+  /-- id standing for the coordinates (what `__eq__`/`__hash__` cover) -/
+  coord : Nat
+  /-- id standing for the weights (shape and values) -/
+  weights : Nat
+deriving DecidableEq, Repr
+
+/-- An injective pairing of two naturals (the definition of Mathlib's `Nat.pair`). -/
+def pair (a b : Nat) : Nat := if a < b then b * b + a else a * a + a + b
+
+/-- `_get_grid_key(grid)`: the part of a cache key that stands for a grid. -/
+def gridKey (g : Grid) : GridId := pair g.coord g.weights
+
+/-- The unrepaired key part `hash(grid)`: coordinates only (for the proved counterexample; no driver op
+runs a `Mutant.*` definition). -/
+def Mutant.gridKeyCoords (g : Grid) : GridId := g.coord
+
+/-- Histories on actual grids. -/
+inductive OpG
+  | req (i o : Option Grid) (w : Option WlKey)
+  | clear
+  | set
+deriving DecidableEq, Repr
+
+/-- What the cache sees of a history, for a given key function. -/
+def OpG.toOp (gk : Grid → GridId) : OpG → Op
+  | .req i o w => .req (i.map gk) (o.map gk) w
+  | .clear => .clear
+  | .set => .set
+
+/-! ### What `make_instance` reads, and what the key retains
+
+The cache model identifies an instance with its key: `Content.make : Key → Nat → α`.  That is sound only if
+`make_instance` (and the propagation methods, through the instance) read nothing of the request but what the
+key retains.  A request is described by the value ids of its *dimensions*; an element family declares its
+dependence flags and the dimensions its `make_instance` reads; `uncovered` lists the reads the key loses.  The
+driver op `covers` runs `uncovered` on the flags and reads *observed* on the running code (recording proxy
+grids and wavelengths handed to `get_instance_data`), `family` prints the declared row of a shipped family. -/
+
+inductive Dim
+  /-- coordinates of the grid named in the request (what `Grid.__eq__`/`__hash__` cover) -/
+  | coords
+  /-- weights of that grid -/
+  | weights
+  | wavelength
+deriving DecidableEq, Repr
+
+/-- What the request key (after repair D505) retains of a request. -/
+def keyCovers (gridDep wlDep : Bool) : Dim → Bool
+  | .coords => gridDep
+  | .weights => gridDep
+  | .wavelength => wlDep
+
+/-- The unrepaired key: `hash(grid)` loses the weights (for the proved counterexample only). -/
+def Mutant.keyCoversCoordsOnly (gridDep wlDep : Bool) : Dim → Bool
+  | .coords => gridDep
+  | .weights => false
+  | .wavelength => wlDep
+
+/-- The reads the key does not retain: must be empty for the cache to be transparent. -/
+def uncoveredBy (covers : Dim → Bool) (reads : List Dim) : List Dim := reads.filter (fun d => !covers d)
+
+def uncovered (gridDep wlDep : Bool) (reads : List Dim) : List Dim := uncoveredBy (keyCovers gridDep wlDep) reads
+
+/-- A shipped element family: declared flags and what its `make_instance` reads. -/
+structure Family where
+  name : String
+  gridDep : Bool
+  wlDep : Bool
+  reads : List Dim
+deriving Repr
+
+/-- The shipped families (all `AgnosticOpticalElement` subclasses in /repo), as declared in their constructors, with an
+upper bound of what their `make_instance` reads (parameters may be callables of grid and wavelength). -/
+def shippedFamilies : List Family :=
+  [ ⟨"FraunhoferPropagator", true, true, [.coords, .weights, .wavelength]⟩,
+    ⟨"FresnelPropagator", true, true, [.coords, .weights, .wavelength]⟩,
+    ⟨"AngularSpectrumPropagator", true, true, [.coords, .weights, .wavelength]⟩,
+    ⟨"Apodizer", true, true, [.coords, .weights, .wavelength]⟩,
+    ⟨"JonesMatrixOpticalElement", true, true, [.coords, .weights, .wavelength]⟩,
+    ⟨"StepIndexFiber", true, true, [.coords, .weights, .wavelength]⟩,
+    ⟨"VectorVortexCoronagraph", true, true, [.coords, .weights, .wavelength]⟩,
+    ⟨"Magnifier", false, true, [.wavelength]⟩ ]
+
+def familyOf (name : String) : Option Family := shippedFamilies.find? (fun f => f.name == name)
+
+/-! ### The wavelength part of the key: an executed rational enclosure of key differences
+
+`wavelength_key = int(np.round(np.log(wavelength) / np.log(1 + 1e-9)))` is modelled over ℝ in
+`Lemmas/WavelengthKey.lean` (`wlKey`); a real logarithm with quotients of the order 10¹⁰ cannot be executed exactly.
+What *can* be executed exactly is an enclosure of the difference of the keys of two rational wavelengths, from
+`1 − 1/x ≤ log x ≤ x − 1`: with `ρ = λ2/λ1 ≥ 1` and `b` the double nearest to `1 + 1e-9`,
+`(1 − 1/ρ)/(b − 1) ≤ log ρ / log b ≤ (ρ − 1)/(1 − 1/b)`, and rounding moves each key by at most ½.  The driver op
+`wldiff` runs these definitions; the harness checks that the key differences of the running code lie inside. -/
+
+/-- The double nearest to `1 + 1e-9` (what `1 + 1e-9` evaluates to in the code). -/
+def wlBase : Rat := 1 + 4503600 / 2 ^ 52
+
+/-- Lower bound of `(log λ2 − log λ1) / log base` for `0 < λ1 ≤ λ2`. -/
+def wlDiffLo (l1 l2 : Rat) : Rat := (1 - l1 / l2) / (wlBase - 1)
+
+/-- Upper bound of `(log λ2 − log λ1) / log base` for `0 < λ1 ≤ λ2`. -/
+def wlDiffHi (l1 l2 : Rat) : Rat := (l2 / l1 - 1) / (1 - 1 / wlBase)
+
+/-- Enclosure of `key(λ2) − key(λ1)` (whatever the tie-breaking of the rounding). -/
+def wlKeyDiffBounds (l1 l2 : Rat) : Rat × Rat := (wlDiffLo l1 l2 - 1, wlDiffHi l1 l2 + 1)
+
 /-! ### Scratch state of the Fourier objects owned by the instances
 
 `MatrixFourierTransform` keeps matrices computed for one complex dtype (`matrices_dtype`),
